@@ -12,6 +12,11 @@ Abstract(s) == IF s = None THEN None ELSE <<s.method, s.expect, s.end, Len(s.ans
 ExportView == <<pending, Returned, ncalls, IF ncalls >= MaxCalls THEN last ELSE Abstract(last),
                 IF ncalls >= MaxCalls THEN <<>> ELSE [i \in 1..Len(hist) |-> Abstract(hist[i])]>>
 
+\* quick tier: a first call is represented by (kind of method, value or error, repeated or not)
+Coarse(s) == IF s = None THEN None ELSE <<Kind(s.method), s.result.k, Len(s.answers) > 1>>
+ExportViewCoarse == <<pending, Returned, ncalls, IF ncalls >= MaxCalls THEN last ELSE Coarse(last),
+                      IF ncalls >= MaxCalls THEN <<>> ELSE [i \in 1..Len(hist) |-> Coarse(hist[i])]>>
+
 ExportCase == (last # None /\ ncalls = 1) => PrintT(<<"CASE", ToJson(last)>>)
 ExportBehaviour == (last # None /\ ncalls = MaxCalls) => PrintT(<<"BEH", ToJson(hist)>>)
 
